@@ -2,23 +2,24 @@
 from props.common import *
 LEVEL = 'proof'
 CLAIM = ("Every pack/unpack pair of glm/packing.hpp and glm/gtc/packing.hpp is executed symbolically from its clang IR. Normalised formats (incl. the packUnorm/packSnorm templates): LAYOUT for every field of every "
-         "format - field k of pack(v) is the reference quantiser applied to component k alone and component k of unpack(p) is the reference decoder applied to field k alone, with field 0 in the least significant bits "
-         "(reference = glm's scalar function of the same (width, signedness, scale), or the first field of that kind of the same format); QUANTISATION on every reference field - the packed code equals "
-         "round(clamp(x)*scale) in IEEE semantics, lies (independently, in exact integer arithmetic over the float's significand) within half a quantisation step of x, out-of-range values clamp to the end codes, packing is monotone, "
+         "format - field k of pack(v) is the reference quantiser applied to component k alone and component k of unpack(p) is the reference decoder applied to field k alone, field 0 in the least significant bits "
+         "(reference = glm's scalar function of the same (width, signedness, scale), or the first field of that kind of the same format); on every reference field: the packed code equals round(clamp(x)*scale) in IEEE "
+         "semantics, lies (independently of that formula, in exact integer arithmetic over the float's significand) within half a quantisation step of x, out-of-range values clamp to the end codes, packing is monotone, "
          "pack(unpack(p)) keeps every canonical code, unpack(pack(unpack(p))) == unpack(p) for every code, unpack is code/scale up to one ulp with exact end points; the re-pack obligations are also proved directly on every "
          "field narrower than 12 bits of every format. Integer/half/double formats: pure layout and lossless round trips. Small-float format F2x11_1x10: decode value per code, truncation within one mantissa step against "
          "SMT-LIB to_fp(5,7)/(5,6), special codes, out-of-range behaviour, monotonicity over all non-NaN floats. Shared-exponent format F3x9_E1x5 (RGB9E5): decode value per code, shared exponent, per-field rounding to the "
-         "nearest mantissa and re-pack of every normalised code, under exactness contracts for exp2f at integers and a faithful-rounding contract for log2f. RGBM: round trip and alpha quantisation in rounding-erased arithmetic.")
+         "nearest mantissa and re-pack of every normalised code, with exp2f/log2f replaced by their contracts. RGBM: round trip and alpha quantisation in rounding-erased arithmetic.")
 BOUNDS = ("no bound on words (all 2^8..2^64 patterns) or on float inputs (all non-NaN bit patterns; NaN inputs of the normalised pack functions are undefined behaviour (float->int conversion) and excluded). "
-          "Independent half-step bound: tolerance 1/2 + scale*2^-24 code units (the binary32 rounding of x*scale); 16-bit fields in the quick tier for |x| < 2^-6 and x = +-1 (larger x: via the formula obligation, "
-          "whose right-hand side is round(fl32(clamp(x)*scale)), and the lemma |round(p) - p| <= 1/2 for every binary32 p; directly for all |x| <= 1 in the thorough tier). "
-          "Monotonicity of 16-bit fields: via the formula obligation and the lemma that round-and-convert is monotone in the binary32 product (IEEE multiplication by a positive constant is monotone); directly for fields < 12 bits. "
-          "The quick tier proves the expensive FP obligations on the reference fields only and transfers them with the layout obligations (term identity); the thorough tier also proves them directly on every field.")
-OUTSIDE = ("the float<->half conversion itself (C07; here only layout and re-pack of the half formats); F3x9_E1x5 relies on contracts for exp2f/log2f (exp2f exact at integers in [-126,127]; log2f(x) in [E,E+1] for x in [2^E,2^(E+1)), "
-           "reaching E+1 only within 16 ulps below 2^(E+1); log2f(x) <= -16 or -inf for 0 <= x < 2^-16), and its pack accuracy is decided per binade of the largest component (quick: 6 binades, thorough: all 33); "
-           "direct bit-precise monotonicity of 16-bit fields (two independent multipliers) is only attempted as an optional obligation in the thorough tier; RGBM in rounding-erased arithmetic only.")
-ASSUMPTIONS = ['glibc exp2f is exact for integral arguments in [-126,127] and log2f is faithful: log2f(x) in [E,E+1] for finite x in [2^E,2^(E+1)) and equal to E+1 only for x within 16 ulps below 2^(E+1); log2f(+0) = -inf (used for F3x9_E1x5 only)',
-               'IEEE-754: fl32(x*s) is within half an ulp of x*s and monotone in x for s > 0 (used only to extend the half-step bound of 16-bit fields to |x| >= 2^-6 in the quick tier and for monotonicity of 16-bit fields)']
+          "Independent half-step bound: tolerance 1/2 + scale*2^-24 code units (the binary32 rounding of x*scale); binary32 formats only; 16-bit fields in the quick tier for |x| < 2^-6 and |x| >= 1 (for 2^-6 <= |x| < 1 via the "
+          "formula obligation, whose right-hand side is round(fl32(clamp(x)*scale)), and the solver-proved lemmas |round(p) - p| <= 1/2 / exact conversion for every binary32 product p; directly for all x in the thorough tier). "
+          "Monotonicity of 16-bit fields: via the formula obligation and the solver-proved lemma that round-and-convert is monotone in the binary32 product; directly for fields < 12 bits (binary64 templates: thorough tier). "
+          "The quick tier proves the expensive FP obligations on the 18 reference fields only and transfers them to the other fields through the layout obligations (the per-field terms are identical); the thorough tier also "
+          "proves them directly on every field. F3x9_E1x5 pack accuracy per binade of the largest component: quick 3 binades (below 2^-16, [1,2), [2^15,2^16)), thorough all 33; re-pack per exponent field value: quick 6, thorough all 32.")
+OUTSIDE = ("the float<->half conversion itself (C07; here only layout and re-pack of the half formats); F3x9_E1x5 relies on contracts for exp2f/log2f (see assumptions) and on log2f being used only through floor(); "
+           "float->int conversion UB inside packF3x9_E1x5 is not discharged here (C20); direct bit-precise monotonicity of 16-bit fields (two independent multipliers) is only attempted as an optional obligation in the "
+           "thorough tier; the independent half-step bound is not proved for the binary64 template instances (their formula obligation is); RGBM in rounding-erased arithmetic only.")
+ASSUMPTIONS = ['glibc exp2f is exact for integral arguments in [-126,127]; log2f is faithful in the sense: log2f(x) in [E,E+1] for finite x in [2^E,2^(E+1)) and equal to E+1 only for x within 16 ulps below 2^(E+1); log2f(x) <= -16 or -inf and not NaN for 0 <= x < 2^-16 (used for F3x9_E1x5 only)',
+               'IEEE-754: fl32(x*s) is within half an ulp of x*s and monotone in x for s > 0 (used only to extend the half-step bound of 16-bit fields to 2^-6 <= |x| < 1 in the quick tier and for monotonicity of 16-bit fields)']
 F32 = z3.Float32(); F64 = z3.Float64()
 SPLIT_BITS = 7          # fields at least this wide: queries over a float component are split into its sign/exponent classes
 HS16_MAXEXP = 120       # independent half-step check of 16-bit fields: decided for biased exponents <= this (|x| < 2^-6)
@@ -279,8 +280,9 @@ def job_halfstep(nm, sel=None, emax=126, emin=0, tag=''):
                 cases.append(('tiny', (lambda i, k=k, b=b: [z3.ULE(z3.Extract(30, 23, i[0][k]), 125 - b)]), (lambda i, o, k=k: [('tiny-to-zero[%d]' % k, F.outcode(o, k) == 0)])))
             for sg in ((0,) if kind == 'u' else (0, 1)):
                 for e in range(max(126 - b, emin), emax + 1):
-                    cases.append(('%s%d' % ('n' if sg else 'e', e), (lambda i, k=k, e=e, sg=sg: [z3.Extract(31, 23, i[0][k]) == (sg << 8 | e)]),
-                                  (lambda i, o, k=k, e=e, b=b, kind=kind, sc=sc: [('within-half-step-%s[%d]' % (sd, k), halfstep_int(i[0][k], F.outcode(o, k), b, kind, sc, e, sd)) for sd in ('lo', 'hi')])))
+                    for t in (range(4) if (b >= 12 and e >= 124) else (None,)):      # the widest products: also split by the top two mantissa bits
+                        cases.append(('%s%d%s' % ('n' if sg else 'e', e, '' if t is None else '.m%d' % t), (lambda i, k=k, e=e, sg=sg, t=t: [z3.Extract(31, 23, i[0][k]) == (sg << 8 | e)] + ([] if t is None else [z3.Extract(22, 21, i[0][k]) == t])),
+                                      (lambda i, o, k=k, e=e, b=b, kind=kind, sc=sc: [('within-half-step-%s[%d]' % (sd, k), halfstep_int(i[0][k], F.outcode(o, k), b, kind, sc, e, sd)) for sd in ('lo', 'hi')])))
             prove_cases(S, 'pack_' + nm, cases, lambda i: [notnan(x) for x in i[0]],
                         'component %d in [%g,1] by sign/exponent class (biased exponents <= %d), other components free; tolerance 1/2 + %g code units (binary32 rounding of the product)' % (k, lo_of(kind), emax, sc * 2.0 ** -24), timeout=S.cap(150, 400))
     return run
@@ -661,6 +663,6 @@ def jobs(tier):
     for grp in ([[0, 1], [15, 16], [30, 31]] if q else [list(range(j, j + 4)) for j in range(0, 32, 4)]):
         J.append(('f3x9_repack_e%s' % '_'.join(str(e) for e in grp), job_f3x9_repack(grp)))
     # longest first (measured), so that the pool finishes evenly
-    pri = ('mono_', 'f3x9_pack', 'repack_Unorm1x16', 'repack_Snorm1x16', 'halfstep_', 'decode_t', 'rgbm', 'repack_')
+    pri = ('f3x9_pack_E15', 'mono_Unorm3x10', 'mono_Snorm3x10', 'repack_Unorm1x16', 'repack_Snorm1x16', 'f3x9_pack', 'decode_t', 'halfstep_Snorm1x16', 'halfstep_Snorm3x10', 'repack_t', 'halfstep_', 'repack_', 'mono_', 'round', 'f3x9', 'decode_', 'quant_')
     J.sort(key=lambda j: next((n for n, p_ in enumerate(pri) if j[0].startswith(p_)), len(pri)))
     return J
